@@ -4,7 +4,7 @@
      agree  : the model's label table and transform_col equal the implementation's;
      C04_b  : the property, evaluated on the implementation's OWN data (content, labels, outputs).
    No proofs here. *)
-From AC.Model Require Import Base GroupedList CheckC13 Labels Transform.
+From AC.Model Require Import Base GroupedList CheckC13 Labels Transform FormatRule.
 
 Inductive iout := IOk (o : list out) | IAssert | IInternal.
 
@@ -17,7 +17,7 @@ Record tcase := mkTCase {
   t_default : val;
   t_dropna : bool;
   t_odt : odtype;
-  t_fmt : fmt_table;            (* finite leader -> f"{leader:.3e}" (CPython) *)
+  t_fmts : list fmt_table;      (* finite leader -> f"{leader:.{n}e}" (CPython), n = 3, 4, ... *)
   t_unit : Z;                   (* VNum z stands for z / t_unit *)
   t_lpv : ldict;                (* the implementation's labels_per_values[feature] *)
   t_strform : list (val * val); (* numeric member -> VStr (string form used by StringDiscretizer) *)
@@ -26,8 +26,11 @@ Record tcase := mkTCase {
 
 Definition t_gl (c : tcase) : gl := mkGL (t_keys c) (t_content c).
 
+(* the table selected by the digit rule of format_quantiles *)
+Definition t_fmt (c : tcase) : fmt_table := fmt_of (t_fmts c) (t_nan c) (t_gl c).
+
 Definition t_state (c : tcase) : state :=
-  fitted_state (t_kind c) (t_gl c) (t_nan c) (t_default c) (t_dropna c) (t_odt c) (t_fmt c).
+  fitted_state_auto (t_kind c) (t_gl c) (t_nan c) (t_default c) (t_dropna c) (t_odt c) (t_fmts c).
 
 (* ---- domain of the model ---------------------------------------------------------------- *)
 Fixpoint fmt_has (t : fmt_table) (v : val) : bool :=
@@ -38,7 +41,8 @@ Definition domain_ok (c : tcase) : bool :=
   match t_kind c with
   | Quant =>
       forallb (fun k => is_num k || val_eqb k (t_nan c)) (t_keys c)
-      && forallb (fmt_has (t_fmt c)) (finite_leaders (t_nan c) (t_keys c))
+      && negb (match t_fmts c with [] => true | _ => false end)
+      && forallb (fun t => forallb (fmt_has t) (finite_leaders (t_nan c) (t_keys c))) (t_fmts c)
       && forallb (fun x => is_num x || is_nan x) (t_cells c)
   | Qual => true
   end.
